@@ -42,6 +42,9 @@ pub struct FileFacts {
     pub nested_includes: Vec<(usize, usize)>,
     /// ranges of every node of the tree (sorted), for S2
     pub node_ranges: Vec<(usize, usize)>,
+    /// the tree does not spell the text it was parsed from: (length of the tree's text, length
+    /// of the text). Nothing else is derived from such a tree.
+    pub tree_mismatch: Option<(usize, usize)>,
 }
 
 pub fn analyze_text(text: &str) -> Result<FileFacts, String> {
@@ -73,11 +76,17 @@ pub fn analyze_text(text: &str) -> Result<FileFacts, String> {
             top: vec![],
             nested_includes: vec![],
             node_ranges: vec![],
+            tree_mismatch: None,
         };
         if !have_parse {
             return facts;
         }
         let root = parsed.syntax_node();
+        let tree_len: usize = root.text_range().len().into();
+        if tree_len != text.len() || root.text() != text {
+            facts.tree_mismatch = Some((tree_len, text.len()));
+            return facts;
+        }
         facts.has_error_node = root
             .descendants_with_tokens()
             .any(|e| e.kind() == SyntaxKind::ERROR);
@@ -178,6 +187,8 @@ pub struct Model<'a> {
     /// include statements whose path cannot be evaluated: (instance, statement start, end)
     pub unusable_sites: Vec<(usize, usize, usize)>,
     pub parser_panic: Option<String>,
+    /// a delivered text whose tree does not spell it: (target, tree length, text length)
+    pub tree_mismatch: Option<(String, usize, usize)>,
     pub any_syntax: bool,
     pub total_syntax_errors: usize,
     pub std_included_top: bool,
@@ -231,6 +242,7 @@ impl<'a> Model<'a> {
             unusable_include: false,
             unusable_sites: vec![],
             parser_panic: None,
+            tree_mismatch: None,
             any_syntax: false,
             total_syntax_errors: 0,
             std_included_top: false,
@@ -462,6 +474,12 @@ impl<'a> Model<'a> {
             }
         };
         self.insts[me].facts = Some(facts.clone());
+        if let Some((a, b)) = facts.tree_mismatch {
+            if self.tree_mismatch.is_none() {
+                self.tree_mismatch = Some((self.insts[me].target.clone(), a, b));
+            }
+            return;
+        }
         if !facts.syn.is_empty() {
             self.any_syntax = true;
             self.total_syntax_errors += facts.syn.len();
@@ -479,7 +497,7 @@ impl<'a> Model<'a> {
         }
         let mut pos = 0usize;
         for st in &facts.top {
-            if self.parser_panic.is_some() {
+            if self.parser_panic.is_some() || self.tree_mismatch.is_some() {
                 return;
             }
             let site = match &st.include {
